@@ -100,7 +100,10 @@ var (
 func Var(name string, s Sort) *Term {
 	if d, ok := declTable[name]; ok {
 		if d.Ret != s || len(d.Args) != 0 {
-			panic(fmt.Sprintf("redeclared %s: %s vs %s", name, d.Ret, s))
+			// the same name with another sort (parameters of different functions verified in one process):
+			// keep them apart by a sort suffix
+			suffix := strings.NewReplacer("(", "", ")", "", " ", "_").Replace(string(s))
+			return Var(name+"~"+suffix, s)
 		}
 	} else {
 		declTable[name] = &Decl{Name: name, Ret: s}
